@@ -10,16 +10,22 @@ use swc_ecma_ast::{
 pub struct N {
     integral: i64,
     fractional: Option<i64>,
+    /// the bits of the number as written, when (integral, fractional) does not determine it: nine decimals of a
+    /// fraction are not the number (`3.14159`), and magnitudes beyond i64 saturate (`1e21`)
+    exact_bits: Option<u64>,
 }
 
 impl N {
     pub fn to_f64(&self) -> f64 {
+        if let Some(bits) = self.exact_bits {
+            return f64::from_bits(bits);
+        }
         self.integral as f64 + self.fractional.unwrap_or(0) as f64 / 1_000_000_000.0
     }
 
     pub fn to_serde(&self) -> serde_json::Value {
-        let v = if let Some(fractional) = self.fractional {
-            serde_json::Number::from_f64(self.integral as f64 + fractional as f64 / 1_000_000_000.0)
+        let v = if self.fractional.is_some() || self.exact_bits.is_some() {
+            serde_json::Number::from_f64(self.to_f64())
                 .expect("should be possible to convert f64 to json number")
         } else {
             serde_json::Number::from(self.integral)
@@ -29,17 +35,26 @@ impl N {
 
     pub fn parse_f64(it: f64) -> Self {
         if it.fract() == 0.0 {
-            return Self::parse_int(it.trunc() as i64);
+            if it.abs() < 9_223_372_036_854_775_000.0 {
+                return Self::parse_int(it.trunc() as i64);
+            }
+            return N {
+                integral: it.trunc() as i64,
+                fractional: None,
+                exact_bits: Some(it.to_bits()),
+            };
         }
         N {
             integral: it.trunc() as i64,
             fractional: Some((it.fract() * 1_000_000_000.0) as i64),
+            exact_bits: Some(it.to_bits()),
         }
     }
     pub fn parse_int(it: i64) -> Self {
         N {
             integral: it,
             fractional: None,
+            exact_bits: None,
         }
     }
 }
